@@ -12,6 +12,7 @@ use hist::*;
 use hxlib::util::{coq, Args, Rng, Sink, Stream};
 use lance::session::Session;
 use lance::Dataset;
+use lance_index::DatasetIndexExt;
 use serde_json::json;
 use std::collections::BTreeMap;
 use std::path::Path;
